@@ -115,6 +115,18 @@ def nul_known_fixture_matches() -> bool:
   return len(c.bads) == 1 and "disassemble|" in c.bads[0][1]
 
 
+def loop_break_fixture_matches() -> bool:
+  import ast
+  from .core import FuncInfo
+  from .rules import lint
+  m = fixture_module("loop_break.py")
+  fs = [FuncInfo(n.name, f"{m.name}:{n.name}", m, n, None, None) for n in m.tree.body if isinstance(n, ast.FunctionDef)]
+  c = _NullCtx(_FakeIndex())
+  c.where = lambda mod, n: "fixture"
+  lint.bare_break_in_item_loop(c, fs)
+  return len(c.bads) == 1 and "apply_steps|" in c.bads[0][1]
+
+
 def lint_k_fixture_matches() -> bool:
   import ast
   from .core import ClassInfo, FuncInfo
